@@ -131,6 +131,7 @@ def signature(sub_name, v):
 
 def run_subcheck(prop_id, sub, tier, seed, shard, nshards, known_sigs, time_budget=None):
     """Runs one shard of one sub-check.  Returns a plain dict (picklable)."""
+    from . import env
     t0 = time.time()
     res = {
         "sub": sub.name, "shard": shard, "evaluations": 0, "nontrivial_hashes": set(),
@@ -145,6 +146,7 @@ def run_subcheck(prop_id, sub, tier, seed, shard, nshards, known_sigs, time_budg
         rec = Rec()
         res["evaluations"] += 1
         try:
+            env.reset_global_modes()
             sub.check(case, rec)
         except Violation as v:
             sig = signature(sub.name, v)
